@@ -37,6 +37,23 @@ func main() {
 				out.WriteByte('\n')
 			}
 		}
+	case "puregen":
+		seed, _ := strconv.ParseUint(os.Args[2], 10, 64)
+		n, _ := strconv.Atoi(os.Args[3])
+		f, err := os.Create(os.Args[4])
+		if err != nil {
+			panic(err)
+		}
+		w := bufio.NewWriter(f)
+		pureGen(seed, n, w)
+		w.Flush()
+		f.Close()
+	case "purerun":
+		f, err := os.Open(os.Args[2])
+		if err != nil {
+			panic(err)
+		}
+		pureRun(f, os.Stdout)
 	case "gen":
 		// gen <profile> <seed> <seqs> <n> <opsfile> <outfile> [statsfile]
 		if len(os.Args) < 8 {
